@@ -278,6 +278,36 @@ func (e *Engine) resolveType(pkg string, expr string) (types.Type, error) {
 	case "ref", "func":
 		return types.Typ[types.UnsafePointer], nil
 	}
+	// pkg.Name (possibly behind * or []) naming an unexported type of another package: looked up in that
+	// package's scope directly (go/types refuses the qualified form)
+	{
+		pre, rest := "", expr
+		for strings.HasPrefix(rest, "*") || strings.HasPrefix(rest, "[]") {
+			if strings.HasPrefix(rest, "*") {
+				pre, rest = pre+"*", rest[1:]
+			} else {
+				pre, rest = pre+"[]", rest[2:]
+			}
+		}
+		if i := strings.Index(rest, "."); i > 0 && !strings.ContainsAny(rest, "[]( ") {
+			if q := e.pkgByShort(rest[:i]); q != nil && q.Types.Name() != pkg {
+				if obj, ok := q.Types.Scope().Lookup(rest[i+1:]).(*types.TypeName); ok && !obj.Exported() {
+					t := obj.Type()
+					for j := len(pre); j > 0; {
+						if strings.HasSuffix(pre[:j], "[]") {
+							t = types.NewSlice(t)
+							j -= 2
+						} else {
+							t = types.NewPointer(t)
+							j--
+						}
+					}
+					e.typeCache[ck] = t
+					return t, nil
+				}
+			}
+		}
+	}
 	p := e.pkgByShort(pkg)
 	if p == nil {
 		// try all packages
